@@ -16,6 +16,7 @@
 import PgProofs.GenoViews
 import PgProofs.GenoNumbers
 import PgProofs.GenoAlign
+import PgProofs.GenoDict
 import PgModel.Geno.Valid
 namespace Pg.Geno
 
@@ -70,6 +71,49 @@ theorem C12_views_of_rebuilt (g : Spec) (hc : g.noCustom = true) (b : BDNA)
   unfold Aligned at ha
   rw [ha]; rfl
 
+/-! ### from_dict -/
+
+/-- `DNA.from_dict(D, spec, use_ints_as_literals)` rebuilds a valid DNA `d` from ANY dictionary `D`
+that holds the decisions of `d` (`Good D o useInts b`, `b` = the bound `d`): under the id of every
+decision point `d` passes through — or, with `multi_choice_key='parent'`, as the list under the
+id of the multi-choice — the decision in the value style of `o`, readable by `candidate_index`.
+Covers the 15 option combinations with id keys (5 value styles × 3 multi-choice modes), every
+spec without custom points. That `to_dict` produces such a dictionary (no two decision points
+render to the same key) is compared on every run (`from_dict(to_dict(…))`, model and code, all
+30 option triples) rather than proved. -/
+theorem C12_from_dict (g : Spec) (hc : g.noCustom = true) (d : DNA) (b : BDNA) (o : Opts) (useInts : Bool)
+    (D : List (String × DE)) (hv : Valid g d) (hb : g.annot d = some b) (hD : Good D o useInts b) :
+    g.fromDict useInts D = some d :=
+  fromDict_of_good D o useInts g hc d b hv hb hD
+
+/-- The readability half of `Good` follows from the explicit conditions `styleOk` on the literal
+values: plain values need `use_ints_as_literals=False`; the literal style needs pairwise different
+literals, integer literals only with `use_ints_as_literals=True`, and no string literal shaped
+like `i/n` / `i/n (…)`; the other styles need nothing. -/
+theorem C12_value_style_readable (o : Opts) (useInts : Bool) (dp : Dp) (i : Int) (self : DNA)
+    (hi : inRange dp.n i = true) (hok : styleOk o useInts dp.lits) :
+    o.valueType = 1 ∨ choiceIndex useInts dp.lits dp.n (fmtChoice o dp i self) = some i.toNat :=
+  choiceIndex_fmt o useInts dp i self hi hok
+
+/-- Dropping the condition on string literals: with literal values `['1/2', 'x']` the literal
+view of `DNA(0)` is `'1/2'`, which `from_dict` reads as "candidate 1 of 2" (replayed on the code:
+`DNA.from_dict(DNA(0, spec=s).to_dict(value_type='literal'), s) == DNA(1)`). -/
+def litSpec (ls : List Lit) : Spec := .point (.choices 1 [[], []] true false { lits := some ls })
+
+theorem C12_dict_literal_shape_counterexample :
+    (match (litSpec [.s "1/2", .s "x"]).annot (.mk (.int 0) []) with
+     | some b => decide ((litSpec [.s "1/2", .s "x"]).fromDict true (toDict { valueType := 3 } b) =
+         some (.mk (.int 1) []))
+     | none => false) = true := by decide
+
+/-- Dropping `use_ints_as_literals=True` for integer literals: the literal view `10` of `DNA(0)`
+is read as a candidate index and rejected. -/
+theorem C12_dict_int_literal_counterexample :
+    (match (litSpec [.i 10, .i 11]).annot (.mk (.int 0) []) with
+     | some b => decide ((litSpec [.i 10, .i 11]).fromDict false (toDict { valueType := 3 } b) = none) &&
+         decide ((litSpec [.i 10, .i 11]).fromDict true (toDict { valueType := 3 } b) = some (.mk (.int 0) []))
+     | none => false) = true := by decide
+
 /-! ### Non-vacuity: a valid DNA with conditional and multi-choice parts satisfies `viewNorm` -/
 
 def exampleSpec12 : Spec :=
@@ -82,6 +126,10 @@ def exampleDna12 : DNA :=
 example : Valid exampleSpec12 exampleDna12 ∧ viewNorm exampleDna12 = true := by decide
 example : exampleSpec12.fromNumbers (flat exampleDna12) = some exampleDna12 := by decide
 example : exampleSpec12.noCustom = true := by decide
+/-- `Good` is satisfiable: the default dictionary view of the example DNA holds its decisions. -/
+example : (match exampleSpec12.annot exampleDna12 with
+    | some b => decide (exampleSpec12.fromDict false (toDict {} b) = some exampleDna12)
+    | none => false) = true := by decide
 /-- The hypotheses of `C12_views_of_rebuilt` are satisfiable (by the binding of the example DNA). -/
 example : ∃ b, Aligned exampleSpec12 b ∧ Valid exampleSpec12 b.erase := by
   obtain ⟨b, _, he, ha⟩ := C12_bound_aligned exampleSpec12 exampleDna12 (by decide)
